@@ -199,6 +199,23 @@ func (x *Exec) vrtCall(g *G, fn *ssa.Function, args []Value) Value {
 			}
 		}
 		return MkBV(64, uint64(n))
+	case "vGoroutineMark":
+		n := 0
+		for _, o := range x.gs {
+			if !o.done {
+				n++
+			}
+		}
+		x.gMark = n
+		return nil
+	case "vGoroutinesSinceMark":
+		n := 0
+		for _, o := range x.gs {
+			if !o.done {
+				n++
+			}
+		}
+		return MkBV(64, uint64(int64(n-x.gMark)))
 	case "vDaemon":
 		g.daemon = true
 		return nil
